@@ -262,3 +262,18 @@ Proof.
   cbv zeta. split; [repeat constructor; simpl; auto|]. split; [vm_compute; reflexivity|].
   vm_compute. split; reflexivity.
 Qed.
+
+(** several plots alive at once (sessions of interleaved calls on plots 0 .. k-1): the state of each
+    plot is the state a lone plot reaches by the calls made on IT, so what a rendering of plot i
+    shows is [savefig] of the objects added to i and the switches / labels / x-range set on i --
+    nothing done to another plot can change it.  (In the model the plots share no state by
+    construction; that the implementation's plots share none is checked by the multi-plot sessions
+    of the correspondence, where the expected switches are tracked from the calls made on each
+    plot and never read back from the object.) *)
+Theorem C19_sessions : forall k steps i, (i < k)%nat -> Forall (fun s => wf_op (snd s)) steps ->
+  let st := nth i (srun steps (repeat new_plot k)) new_plot in
+  st = prun (calls_on i steps) new_plot /\
+  ps_last (pstep st Render) = Some (savefig (ps_cfg st) (added (calls_on i steps))) /\
+  objs_of (ps_slots st) = added (calls_on i steps).
+Proof. exact sessions_lemma. Qed.
+Print Assumptions C19_sessions.
